@@ -120,6 +120,7 @@ pub(super) struct Universe {
     pub(super) fees: Vec<(String, Option<(u128, u128)>)>,
     pub(super) max_tx_bytes: i64,
     pub(super) event_counter: u64,
+    pub(super) issued_events: Vec<(usize, String)>,
     pub(super) salt: u64,
 }
 
@@ -202,6 +203,7 @@ impl Universe {
             fees,
             max_tx_bytes,
             event_counter: 0,
+            issued_events: vec![],
             salt: rng.next_u64(),
         }
     }
@@ -270,6 +272,7 @@ impl Universe {
 
     /// Deterministic post-genesis setup every node applies identically.
     pub(super) async fn extra_setup<S: StateWrite>(&self, state: &mut S) {
+        super::ibc::install(state).await;
         for (k, asset) in self.assets.iter().enumerate() {
             if k == 0 {
                 continue;
@@ -307,7 +310,15 @@ impl Universe {
 
     fn next_event_id(&mut self, bridge: usize) -> String {
         self.event_counter += 1;
-        format!("w-{}-{}", self.accts[bridge].name, self.event_counter)
+        let id = format!("w-{}-{}", self.accts[bridge].name, self.event_counter);
+        self.issued_events.push((bridge, id.clone()));
+        id
+    }
+
+    /// An event id that was issued for this bridge before (probably consumed already).
+    fn old_event_id(&self, rng: &mut ChaChaRng, bridge: usize) -> Option<String> {
+        let c: Vec<&String> = self.issued_events.iter().filter(|(b, _)| *b == bridge).map(|(_, e)| e).collect();
+        if c.is_empty() { None } else { Some(c[rng.gen_range(0..c.len())].clone()) }
     }
 }
 
@@ -357,7 +368,7 @@ pub(super) fn action_json(a: &Action) -> serde_json::Value {
         },
         Action::ValidatorUpdate(v) => json!({"kind": "validator_update", "vk": vlog::hex(v.verification_key.as_ref()), "power": v.power, "name": v.name.to_string()}),
         Action::Ics20Withdrawal(w) => json!({"kind": "ics20_withdrawal", "amount": w.amount.to_string(), "denom": w.denom.to_string(), "denom_ibc": w.denom.to_ibc_prefixed().to_string(),
-            "channel": w.source_channel.to_string(), "return": b(&w.return_address), "bridge": w.bridge_address.as_ref().map(b), "memo": w.memo, "fee_asset": w.fee_asset.to_ibc_prefixed().to_string()}),
+            "channel": w.source_channel.to_string(), "return": b(&w.return_address), "return_str": w.return_address.to_string(), "compat": w.use_compat_address, "bridge": w.bridge_address.as_ref().map(b), "memo": w.memo, "fee_asset": w.fee_asset.to_ibc_prefixed().to_string()}),
         other => json!({"kind": "other", "debug": format!("{other:?}").chars().take(80).collect::<String>()}),
     }
 }
@@ -461,7 +472,7 @@ async fn gen_action<S: StateRead>(
     match kind {
         "transfer" => {
             let from = signer_hint.unwrap_or_else(|| any_user(rng));
-            let to = rng.gen_range(0..u.accts.len());
+            let to = if rng.gen_bool(0.12) { from } else { rng.gen_range(0..u.accts.len()) };
             let asset = u.assets[rng.gen_range(0..u.assets.len())].clone();
             let bal = balance(state, &u.accts[from].addr, &asset).await;
             let amount = if hostile { amount_around(rng, bal) } else { amount_around(rng, bal).min(bal / 3) };
@@ -532,7 +543,14 @@ async fn gen_action<S: StateRead>(
             let basset = state.get_bridge_account_ibc_asset(&u.accts[b].addr).await.ok()?;
             let bal = state.get_account_balance(&u.accts[b].addr, &basset).await.unwrap_or(0);
             let amount = if hostile { amount_around(rng, bal) } else { amount_around(rng, bal).min(bal / 2).max(1) };
-            let event_id = u.next_event_id(b);
+            let mut intent = intent;
+            let event_id = match (rng.gen_bool(0.25), u.old_event_id(rng, b)) {
+                (true, Some(old)) => {
+                    intent = format!("{intent}:reuse_event_id");
+                    old
+                }
+                _ => u.next_event_id(b),
+            };
             let fee_asset = pick_fee_asset(u, rng, state, false).await;
             if kind == "bridge_unlock" {
                 let to = rng.gen_range(0..u.accts.len());
@@ -626,14 +644,15 @@ async fn gen_action<S: StateRead>(
             Some((from, action, intent))
         }
         "ibc_sudo_change" | "ibc_relayer_change" => {
-            let s = key_for(u, state, "ibc_sudo", None).await;
+            // the IBC sudo address is set by the chain sudo; the relayer set by the IBC sudo
+            let s = key_for(u, state, if kind == "ibc_sudo_change" { "sudo" } else { "ibc_sudo" }, None).await;
             let (from, intent) = if hostile && rng.gen_bool(0.6) {
                 let c = match rng.gen_range(0..3) {
                     0 => u.ibc_sudo,
                     1 => u.sudo,
                     _ => any_user(rng),
                 };
-                (c, format!("{kind}:attack_not_ibc_sudo"))
+                (c, format!("{kind}:attack_{}", if kind == "ibc_sudo_change" { "not_sudo" } else { "not_ibc_sudo" }))
             } else {
                 (s?, kind.to_string())
             };
@@ -650,11 +669,61 @@ async fn gen_action<S: StateRead>(
             };
             Some((from, action, intent))
         }
+        "ics20_withdrawal" => {
+            let (local, remote) = super::ibc::CHANNELS[rng.gen_range(0..super::ibc::CHANNELS.len())];
+            // from a bridge (signed by its withdrawer, memo required) or from a plain account
+            let from_bridge = !bridge_list.is_empty() && rng.gen_bool(0.3);
+            let (from, bridge, memo, src_addr) = if from_bridge {
+                let b = *bridge_list.choose(rng)?;
+                let w = if hostile && rng.gen_bool(0.4) { any_user(rng) } else { key_for(u, state, "bridge_withdrawer", Some(b)).await? };
+                let ev = match (rng.gen_bool(0.2), u.old_event_id(rng, b)) {
+                    (true, Some(old)) => old,
+                    _ => u.next_event_id(b),
+                };
+                let memo = serde_json::to_string(&astria_core::protocol::memos::v1::Ics20WithdrawalFromRollup {
+                    rollup_block_number: rng.gen_range(1..1000),
+                    rollup_withdrawal_event_id: ev,
+                    rollup_return_address: "0xrollupreturn".into(),
+                    memo: "m".into(),
+                })
+                .unwrap();
+                (w, Some(u.accts[b].address()), memo, u.accts[b].addr)
+            } else {
+                let f = signer_hint.unwrap_or_else(|| any_user(rng));
+                (f, None, String::new(), u.accts[f].addr)
+            };
+            // what: native / sequencer-origin denom-a / foreign voucher of this or the other channel, in trace or ibc/ spelling
+            let base: Denom = if let Some(baddr) = bridge.as_ref() {
+                let basset = state.get_bridge_account_ibc_asset(&baddr.bytes()).await.ok()?;
+                u.assets.iter().find(|d| d.to_ibc_prefixed() == basset)?.clone()
+            } else {
+                u.assets[[0usize, 0, 1, 4, 4][rng.gen_range(0..5)]].clone()
+            };
+            let denom = if rng.gen_bool(0.25) { Denom::from(base.to_ibc_prefixed()) } else { base.clone() };
+            let bal = balance(state, &src_addr, &base).await;
+            let amount = if hostile { amount_around(rng, bal).max(1) } else { amount_around(rng, bal).min(bal / 3).max(1) };
+            let fee_asset = pick_fee_asset(u, rng, state, false).await;
+            let _ = remote;
+            Some((from, Action::Ics20Withdrawal(Ics20Withdrawal {
+                amount,
+                denom,
+                destination_chain_address: "counterparty1receiver".into(),
+                return_address: if bridge.is_some() { bridge.clone().unwrap() } else { u.accts[from].address() },
+                timeout_height: ibc_types::core::client::Height::new(2, 1_000_000).unwrap(),
+                timeout_time: 4_000_000_000_000_000_000,
+                source_channel: ibc_types::core::channel::ChannelId::new(local),
+                fee_asset,
+                memo,
+                bridge_address: bridge,
+                use_compat_address: rng.gen_bool(0.2),
+            }), if from_bridge { "ics20_withdrawal:from_bridge".into() } else { "ics20_withdrawal".into() }))
+        }
         _ => None,
     }
 }
 
-const KINDS: [(&str, u32); 13] = [
+const KINDS: [(&str, u32); 14] = [
+    ("ics20_withdrawal", 3),
     ("transfer", 30),
     ("rollup_data", 20),
     ("init_bridge", 6),
@@ -677,6 +746,8 @@ fn pick_kind(rng: &mut ChaChaRng, profile: &str) -> &'static str {
             ("authz", "fee_change" | "fee_asset_change" | "sudo_change" | "validator_update" | "ibc_sudo_change" | "ibc_relayer_change" | "bridge_sudo_change" | "bridge_unlock") => 4,
             ("validators", "validator_update") => 12,
             ("ledger", "transfer" | "fee_change" | "fee_asset_change") => 2,
+            ("ibc", "ics20_withdrawal") => 12,
+            ("ibc", "init_bridge" | "bridge_lock") => 2,
             _ => 1,
         }
     };
